@@ -18,6 +18,7 @@
 import Mhd.Proofs.LimitsTrace
 import Mhd.Proofs.LimitsResp
 import Mhd.Proofs.LimitsFree
+import Mhd.Proofs.LimitsPool
 
 namespace Mhd.C09
 open Mhd.Limits
@@ -202,6 +203,48 @@ theorem free_callback_exactly_once (cfg : Cfg) (ops : List Op) (r : Nat) :
   rw [h0] at h
   unfold phi frc at h
   cases hx : (run (St.init cfg) ops).1.resps r <;> simp only [hx] at h ⊢ <;> simpa using h
+
+/-- Thread pool (MHD_OPTION_THREAD_POOL_SIZE = n ≥ 1 workers): the workers' connection limits,
+    as computed by MHD_start_daemon_va, sum to the configured limit — for every limit and every
+    pool size. -/
+theorem pool_split_sum (limit n : Nat) (hn : 0 < n) : (workerLimits limit n).sum = limit :=
+  workerLimits_sum limit n hn
+
+/-- … hence the global bound follows from the per-daemon invariant: for any `n` worker daemons
+    `w 0 … w (n-1)`, each in a state satisfying the accounting invariant (every reachable
+    state does, `run_inv`) and each configured with its share of the limit, the total number of
+    connections is at most the configured limit; and when MHD_add_connection finds no worker with
+    room (`pickWorker = none`: every worker is at its own limit) the daemon as a whole is serving
+    exactly `limit` connections — the split loses no capacity either. -/
+theorem pool_bound (limit n : Nat) (hn : 0 < n) (w : Nat → St)
+    (h : ∀ i, i < n → Inv (w i) ∧ (w i).cfg.limit = splitLimit limit n i) :
+    ((List.range n).map (fun i => (w i).connections)).sum ≤ limit ∧
+    ((∀ i, i < n → ¬ (w i).connections < (w i).cfg.limit) →
+      ((List.range n).map (fun i => (w i).connections)).sum = limit) := by
+  have hs := workerLimits_sum limit n hn
+  unfold workerLimits at hs
+  constructor
+  · have := sum_range_le (fun i => (w i).connections) (splitLimit limit n) n
+      (fun i hi => by have := (h i hi).1.le; rw [(h i hi).2] at this; exact this)
+    omega
+  · intro hfull
+    have := sum_range_eq (fun i => (w i).connections) (splitLimit limit n) n
+      (fun i hi => by
+        have h1 := (h i hi).1.le
+        have h2 := hfull i hi
+        rw [(h i hi).2] at h1 h2
+        show (w i).connections = splitLimit limit n i
+        omega)
+    omega
+
+/-- a worker picked by MHD_add_connection has room (so its own limit check passes) -/
+theorem pool_pick_has_room (conns limits : Nat → Nat) (n off j : Nat)
+    (h : pickWorker conns limits n off = some j) : conns j < limits j :=
+  pickWorker_room conns limits n off j h
+
+/-- Non-vacuity (the seeded example): limit 5 over 4 workers is 2,1,1,1; 7 over 3 is 3,2,2. -/
+example : workerLimits 5 4 = [2, 1, 1, 1] ∧ workerLimits 7 3 = [3, 2, 2] ∧ workerLimits 1 6 = [1, 0, 0, 0, 0, 0] := by
+  decide
 
 /-- Non-vacuity: a history with a refused arrival (global limit), a per-address refusal, a
     policy refusal, a failed allocation, a suspended and an upgraded connection reaches a
